@@ -673,10 +673,10 @@ let rg_cmd (args : string list) : string =
   | _ -> "bad-command"
 
 (* ---------- C15 writer-level engine: Crash/Fail.v under a fault plan ---------- *)
-let wf_state = ref wal0
+let wf_state = ref walx0
 let wf_plan : (int * fkind * bool) ref = ref (0, KErr, false)
-let wf_cmds : wcmd list ref = ref []
-let wf_res : fres list ref = ref []
+let wf_cmds : xcmd list ref = ref []
+let wf_res : xres list ref = ref []
 let wf_kind (s : string) : fkind =
   let num pre = int_of_string (String.sub s (String.length pre) (String.length s - String.length pre)) in
   if s = "eio" || s = "enospc" then KErr
@@ -684,29 +684,30 @@ let wf_kind (s : string) : fkind =
   else if String.length s > 8 && String.sub s 0 8 = "shorterr" then KShortErr (nat_of_int (num "shorterr"))
   else if String.length s > 5 && String.sub s 0 5 = "short" then KShort (nat_of_int (num "short"))
   else failwith "bad fault kind"
-let wf_do (c : wcmd) : string =
+let wf_do (c : xcmd) : string =
   let (n, k, st) = !wf_plan in
-  let (a, r) = fi_step (plan_wenv (nat_of_int n) k st) (plan_senv (nat_of_int n) k st) !wf_state c in
+  let (a, r) = fi_xstep (plan_wenv (nat_of_int n) k st) (plan_senv (nat_of_int n) k st) !wf_state c in
   wf_state := a; wf_cmds := !wf_cmds @ [c]; wf_res := !wf_res @ [r];
-  match r with FOk -> "ok" | FRejected -> "rejected" | _ -> "err"
+  match r with XOk -> "ok" | XRejected -> "rejected" | _ -> "err"
 let wf_cmd (args : string list) : string =
   match args with
-  | ["open"; _] -> wf_state := wal0; wf_cmds := []; wf_res := []; "ok"
+  | ["open"; _] -> wf_state := walx0; wf_cmds := []; wf_res := []; "ok"
   | ["fault"; n; kind; sticky] -> wf_plan := (int_of_string n, wf_kind kind, sticky = "1"); "ok"
-  | ["append"; tok] -> wf_do (CAppend (bytes_of_tok tok))
-  | ["flush"] -> wf_do CFlush
-  | ["sync"] -> wf_do CSync
-  | ["rotate"] -> wf_do CRotate
+  | ["append"; tok] -> wf_do (XC (CAppend (bytes_of_tok tok)))
+  | ["flush"] -> wf_do (XC CFlush)
+  | ["sync"] -> wf_do (XC CSync)
+  | ["rotate"] -> wf_do (XC CRotate)
+  | ["close"] -> wf_do XClose
   | ["files"] ->
-    let segs = segments !wf_state in
+    let segs = segments !wf_state.x_wal in
     Printf.sprintf "segs=%d %s" (List.length segs) (String.concat "," (List.map (fun f -> Printf.sprintf "%d/%s" (List.length f) (fnv f)) segs))
   | ["read"] ->
-    String.concat " | " (List.map (fun f -> show_read (wal_read_all no_decompress f)) (segments !wf_state))
+    String.concat " | " (List.map (fun f -> show_read (wal_read_all no_decompress f)) (segments !wf_state.x_wal))
   | ["class"] ->
     let sh l = String.concat "," (List.map (fun r -> Printf.sprintf "%d/%s" (List.length r) (fnv r)) l) in
-    Printf.sprintf "class mid=%b used_after=%b fsync=%b buffered=%d acked=[%s] emitted=[%s]"
-      (known_mid_emit_failure !wf_res) (known_used_after_failure !wf_res) (known_fsync_failed !wf_res)
-      (List.length (cur_buf !wf_state)) (sh (acked !wf_cmds !wf_res)) (sh (emitted !wf_cmds !wf_res))
+    Printf.sprintf "class fsync=%b failed=%b shut=%b ack_after_failure=%b buffered=%d acked=[%s]"
+      (xknown_fsync_failed !wf_res) !wf_state.x_failed !wf_state.x_shut (xack_after false !wf_cmds !wf_res)
+      (List.length (cur_buf !wf_state.x_wal)) (sh (xacked !wf_cmds !wf_res))
   | ["params"] -> Printf.sprintf "cap=%d ok=%b" (int_of_nat fC) fail_params_ok
   | ["end"] -> "ok"
   | _ -> "bad-command"
